@@ -613,14 +613,18 @@ func (ev *evaluator) node(e *env, n *Node) {
 		ev.matom("\x00<!doctype html>\x01", false, false)
 		ev.mark(evBarrier)
 	case "style":
-		ev.matom(tagCanon("style", nil), false, false)
+		var sas [][2]string
+		ev.attrs(e, n.Attrs, &sas)
+		ev.matom(tagCanon("style", sas), false, false)
 		if n.Text != "" {
 			ev.atom(n.Text, false, false)
 		}
 		ev.matom("\x00</style>\x01", false, false)
 		ev.mark(evBarrier)
 	case "script":
-		ev.matom(tagCanon("script", nil), false, false)
+		var sas [][2]string
+		ev.attrs(e, n.Attrs, &sas)
+		ev.matom(tagCanon("script", sas), false, false)
 		if strings.Contains(n.Text, "{{") {
 			ev.evs = append(ev.evs, event{kind: evAtom, wild: true}) // a script with Go values: any text
 		} else if n.Text != "" {
